@@ -313,7 +313,7 @@ def nr_header(E, v, o):
 def nr_protocol(E, v, o):
     cs = calls(E, "nrrd.read")
     foreign = [nm for nm, _ in E.call_log if nm.split(".")[0] in ("nrrd", "np", "tifffile", "v3dpy")]
-    return len(cs) == 1 and foreign == ["nrrd.read"] and cs[0]["file"] is v["fname"] and cs[0]["nargs"] == 1 and cs[0]["kwargs"] == E.spec_extra["user_kw"]
+    return len(cs) == 1 and foreign == ["nrrd.read"] and cs[0]["file"] is v["fname"] and cs[0]["nargs"] == 1 and cs[0]["kwargs"] == {k: x for k, x in E.spec_extra["user_kw"].items() if k != "dtype"}
 
 
 def reg_nrrd(R):
@@ -419,10 +419,256 @@ def reg_v3d(R):
               notes=f"uses the {kind} loader; otherwise V3dImageStack.__init__ (inlined)")
 
 
+# =========================================================================== TeraflyImageStack.is_root / shape (what the dispatch of read_imgs needs)
+def is_root_spec(rz):
+    """a directory that has an entry whose name the pattern RES(<int>x<int>x<int>) matches"""
+    from swcgeom.images.io import RE_TERAFLY_ROOT
+
+    j = z3.Int(fresh_name("j"))
+    lst = X.LISTDIR(rz)
+    pat = X.intern_str("re:" + RE_TERAFLY_ROOT.pattern)
+    return z3.And(X.ISDIR(rz), z3.Exists([j], z3.And(j >= 0, j < X.DLEN(lst), X.REMATCH(pat, X.DNAME(lst, j)))))
+
+
+def reg_terafly_bits(R):
+    R.add(
+        f"{IO}:TeraflyImageStack.is_root",
+        prop="C20",
+        variants={"any-path": lambda S: dict(root=sym_name(S, "root")), "a-concrete-path": lambda S: dict(root="data/brain")},
+        returns="bool",
+        ensures=[("true-iff-a-directory-with-an-entry-named-RES(AxBxC)", lambda E, v, o: to_z3(v["result"], "bool") == is_root_spec(X.zref(v["root"])))],
+        notes="os.path.isdir / os.listdir / the compiled pattern's match are uninterpreted (the file system and the regular expression engine are not modelled)",
+    )
+
+    def shape_setup(levels):
+        def f(S):
+            from swcgeom.images.io import TeraflyImageStack
+
+            res = NArr((levels, 3), [S.int(f"res{k}") for k in range(levels * 3)], "int")
+            res.frozen = True
+            self = S.obj(TeraflyImageStack, res=res)
+            self.frozen = True
+            return dict(self=self, __ghost__=dict(res=res, levels=levels))
+
+        return f
+
+    def shape_post(E, v, o):
+        res, L, r = E.spec_extra["res"], E.spec_extra["levels"], v["result"]
+        last = res.items[3 * (L - 1):]
+        return isinstance(r, tuple) and len(r) == 4 and B.conj(*[B.eq_dim(g, w) for g, w in zip(r, list(last) + [1])])
+
+    R.add(
+        f"{IO}:TeraflyImageStack.shape",
+        prop="C20",
+        variants={"1-level": shape_setup(1), "3-levels": shape_setup(3)},
+        ensures=[("is-(X,Y,Z,1)-of-the-last-(finest)-resolution-level", shape_post)],
+    )
+    R.add(f"{IO}:TeraflyImageStack.__init__", prop="C20", trusted=True, ensures=[],
+          notes="assumed: returns normally (parsing the RES(..) directory tree - os.listdir, regular expressions, np.take on names - is out of reach); "
+                "used only so that read_imgs' last branch can be stated: which arguments the constructor receives")
+
+
+# =========================================================================== read_imgs / read_images
+EXTS = {".tif": "TiffImageStack", ".tiff": "TiffImageStack", ".nrrd": "NrrdImageStack", ".v3dpbd": "V3dpbdImageStack", ".v3draw": "V3drawImageStack",
+        ".npy": "NDArrayImageStack"}  # the documented dispatch table (docstring / README of swcgeom.images.io)
+V3KIND = {"V3dpbdImageStack": "PBD", "V3drawImageStack": "Raw"}
+NRRD_OPTS = {"custom_field_map", "index_order"}
+
+
+def ri_setup(kw, raw="uint8", tiff_axes="ZXYC", ndim=4, name=None, args=False):
+    def f(S):
+        fname = name if name is not None else sym_name(S)
+        tiff = source(S, [f"t{k}" for k in range(len(tiff_axes))], raw, "tiff")
+        nr = source(S, [f"n{k}" for k in range(ndim)], raw, "nrrd")
+        npy = source(S, [f"p{k}" for k in range(ndim)], raw, "npy")
+        v3f = source(S, "XYZC", raw if raw in ("uint8", "uint16", "float32") else "uint8", "v3d")
+        loaded = v3f._permuted([3, 2, 1, 0])
+        loaded.frozen = True
+        header = S.opaque({}, "header")
+        g = dict(tiff_content=(tiff, tiff_axes), file_axes=tiff_axes, nrrd_content=(nr, header), header=header, npy_content=npy, v3d_content=loaded,
+                 file_arr=v3f, sources=dict(tiff=tiff, nrrd=nr, npy=npy, v3d=loaded), user_kw=dict(kw), fname=fname)
+        if args:  # read_images(*args, **kwargs)
+            return dict(args=(fname,), kwargs=PDict(dict(kw)), __ghost__=g)
+        return dict(fname=fname, kwargs=PDict(dict(kw)), __ghost__=g)
+
+    return f
+
+
+def ri_ext(E):
+    import os
+
+    f = E.spec_extra["fname"]
+    return X.intern_str(os.path.splitext(f)[-1]) if isinstance(f, str) else X.EXTOF(X.zref(f))
+
+
+def ri_is(E, *exts):
+    e = ri_ext(E)
+    return z3.Or(*[e == X.intern_str(x) for x in exts])
+
+
+def ri_known(E):
+    return ri_is(E, *EXTS)
+
+
+def ri_exists(E):
+    return X.EXISTS(X.zref(E.spec_extra["fname"]))
+
+
+def ri_terafly(E):
+    return z3.And(z3.Not(ri_known(E)), is_root_spec(X.zref(E.spec_extra["fname"])))
+
+
+def ri_dtype(E):
+    return E.spec_extra["user_kw"].get("dtype", np.float32)  # "dtype : np.dtype, default to np.float32"
+
+
+def fwd_kw(E):
+    return {k: x for k, x in E.spec_extra["user_kw"].items() if k != "dtype"}
+
+
+def ri_stack(v):
+    """the ImageStack the call produced (read_images wraps it)"""
+    r = v["result"]
+    if isinstance(r, Obj) and r.cls.__name__ == "GrayImageStack":
+        return r.fields.get("imgs")
+    return r
+
+
+def ri_class(E, v, o):
+    st = ri_stack(v)
+    if not isinstance(st, Obj):
+        return False
+    name = st.cls.__name__
+    if name == "TeraflyImageStack":
+        return ri_terafly(E)
+    want = [x for x, c in EXTS.items() if c == name]
+    return ri_is(E, *want) if want else False
+
+
+def with_src(E, a, fn, v):
+    old = E.spec_extra.get("src_arr")
+    E.spec_extra["src_arr"] = a
+    try:
+        return fn(E, v, None)
+    finally:
+        E.spec_extra["src_arr"] = old
+
+
+def ri_content(E, v, o):
+    """the chosen reader's own clauses, for the stack that comes back (dtype = the requested one, float32 by default)"""
+    st = ri_stack(v)
+    if not isinstance(st, Obj):
+        return False
+    name, dt, src = st.cls.__name__, ri_dtype(E), E.spec_extra["sources"]
+    vv = dict(self=st, dtype=dt, fname=E.spec_extra["fname"])
+    if name == "TiffImageStack":
+        return B.conj(*[with_src(E, src["tiff"], f, vv) for f in (B.tf_shape, B.tf_voxels, B.tf_xyzc, B.tf_dtype, B.tf_warns, B.nd_only_field)])
+    if name == "NrrdImageStack":
+        return B.conj(*[with_src(E, src["nrrd"], f, vv) for f in (nr_shape, nr_voxels, nr_dtype, nr_header)])
+    if name in V3KIND:
+        return B.conj(*[with_src(E, src["v3d"], f, vv) for f in (v3_loader_shape, v3_loader_voxels, nr_dtype, B.nd_only_field)])
+    if name == "NDArrayImageStack":
+        a = src["npy"]
+        return B.conj(shape_is(held(vv), B.in4(a)[0]), rescaled(held(vv), a, dt), held(vv).dtype == want_dtype(a, dt), B.nd_only_field(E, vv, None))
+    if name == "TeraflyImageStack":
+        cs = calls(E, "TeraflyImageStack.__init__")
+        extra = fwd_kw(E)
+        return len(cs) == 1 and cs[0]["self"] is st and cs[0]["root"] is E.spec_extra["fname"] and cs[0]["dtype"] is dt and all(cs[0].get(k) is x for k, x in extra.items())
+    return False
+
+
+def ri_protocol(E, v, o):
+    """exactly the chosen reader touches exactly the named file, once, with the caller's options (dtype excepted)"""
+    st = ri_stack(v)
+    if not isinstance(st, Obj):
+        return False
+    name, fname = st.cls.__name__, E.spec_extra["fname"]
+    foreign = [(nm, p) for nm, p in E.call_log if nm.split(".")[0] in ("nrrd", "np", "tifffile", "v3dpy", "TiffFile", "TiffPageSeries", "TiffWriter")]
+    names = [nm for nm, _ in foreign]
+    if name == "TiffImageStack":
+        return names == ["tifffile.TiffFile", "TiffFile.__enter__", "TiffPageSeries.asarray", "TiffFile.__exit__"] and foreign[0][1]["file"] is fname and foreign[0][1]["kwargs"] == fwd_kw(E)
+    if name == "NrrdImageStack":
+        return names == ["nrrd.read"] and foreign[0][1]["file"] is fname and foreign[0][1]["nargs"] == 1 and foreign[0][1]["kwargs"] == fwd_kw(E)
+    if name in V3KIND:
+        k = V3KIND[name]
+        return names == [f"v3dpy.{k}", f"v3dpy.{k}.load"] and foreign[0][1]["args"] == () and foreign[0][1]["kwargs"] == {} and foreign[1][1]["file"] is fname
+    if name == "NDArrayImageStack":
+        return names == ["np.load"] and foreign[0][1]["file"] is fname and foreign[0][1]["kwargs"] == {}
+    if name == "TeraflyImageStack":
+        return names == []
+    return False
+
+
+def ri_value_error(E, v, o):
+    return z3.Or(z3.Not(ri_exists(E)), z3.And(z3.Not(ri_known(E)), z3.Not(is_root_spec(X.zref(E.spec_extra["fname"])))))
+
+
+def ri_type_error(E, v, o):
+    extra = set(fwd_kw(E))
+    if not extra:
+        return False
+    bad = [".v3dpbd", ".v3draw", ".npy"] + ([".nrrd"] if extra - NRRD_OPTS else [])
+    tera = ri_terafly(E) if extra - {"lru_maxsize"} else z3.BoolVal(False)  # TeraflyImageStack(root, *, dtype, lru_maxsize=128)
+    return z3.And(ri_exists(E), z3.Or(ri_is(E, *bad), tera))
+
+
+RI_ENSURES = [
+    ("class-is-the-one-documented-for-the-extension-terafly-only-for-a-RES-directory-without-known-extension", ri_class),
+    ("returned-only-for-an-existing-path", lambda E, v, o: ri_exists(E)),
+    ("stack-is-what-the-chosen-reader-documents-for-the-file-with-dtype-float32-unless-requested", ri_content),
+    ("only-the-chosen-reader-touches-only-the-named-file-options-forwarded", ri_protocol),
+]
+RI_RAISES = {"ValueError": ("only-for-a-missing-path-or-an-unknown-extension-that-is-not-a-terafly-root", ri_value_error),
+             "TypeError": ("only-for-an-option-the-chosen-reader-does-not-take", ri_type_error)}
+
+
+def ri_variants(args=False):
+    vs = {
+        "any-name,no-options,uint8-files": ri_setup({}, args=args),
+        "any-name,no-options,float32-files,3-D": ri_setup({}, raw="float32", tiff_axes="ZXY", ndim=3, args=args),
+        "any-name,dtype=uint8,float32-files": ri_setup({"dtype": np.uint8}, raw="float32", args=args),
+        "any-name,dtype=dtype(uint16),float64-files": ri_setup({"dtype": np.dtype("uint16")}, raw="float64", tiff_axes="XYZC", args=args),
+        "any-name,dtype=None,uint16-files": ri_setup({"dtype": None}, raw="uint16", tiff_axes="CZYX", args=args),
+        "any-name,dtype=float32,tiff-axes-unusable": ri_setup({"dtype": np.float32}, raw="uint16", tiff_axes="QYX", ndim=3, args=args),
+        "any-name,reader-option": ri_setup({"dtype": np.float32, "index_order": "C"}, args=args),
+        "any-name,unknown-option": ri_setup({"is_ome": False}, args=args),
+    }
+    for nm in ("stack.tif", "a.b/img.tiff", "x.nrrd", "x.v3dpbd", "x.v3draw", "x.npy", "X.TIF", "noext", ".tif", "x.tif.npy"):
+        vs["name=" + nm] = ri_setup({}, name=nm, args=args)
+    return vs
+
+
+def reg_read_imgs(R):
+    R.add(
+        f"{IO}:read_imgs",
+        prop="C20",
+        variants=ri_variants(),
+        raises=RI_RAISES,
+        ensures=RI_ENSURES,
+        notes="the file name is SYMBOLIC (os.path.splitext / exists are uninterpreted), so the dispatch clause holds for every name; ten concrete names run the real "
+              "splitext; the readers are inlined (their own contracts' clauses are re-proved for the returned stack); TeraflyImageStack(...) is an assumed constructor",
+    )
+
+    def wraps(E, v, o):
+        r = v["result"]
+        return isinstance(r, Obj) and r.cls.__name__ == "GrayImageStack" and set(r.fields) == {"imgs"} and isinstance(r.fields["imgs"], Obj)
+
+    R.add(
+        f"{IO}:read_images",
+        prop="C20",
+        variants=ri_variants(args=True),
+        raises=RI_RAISES,
+        ensures=[("a-GrayImageStack-around-the-stack-read_imgs-returns", wraps)] + RI_ENSURES,
+        notes="deprecated alias: GrayImageStack(read_imgs(*args, **kwargs)); read_imgs is inlined",
+    )
+
+
 def register(R):
     reg_ndarray_access(R)
     reg_nrrd(R)
     reg_v3d(R)
+    reg_terafly_bits(R)
+    reg_read_imgs(R)
 
 
 def lemmas():
